@@ -33,6 +33,12 @@ Clauses(e) ==
   /\ Check(tid, l, "P.errors.documented_only", e.obs.err, e.obs.err \in Errors /\ e.other.err \in Errors)
   /\ Check(tid, l, "P.lenient.no_parse_error", Lenient(e).err, Lenient(e).err \in {NoErr, "ValueError"})
   /\ Check(tid, l, "P.lenient.same_as_strict", "", Strict(e).err = NoErr => Lenient(e) = Strict(e))
+  \* the same format declared through command configurations, the mode chosen through Command.parse(raw, lenient):
+  \* an explicit mode wins, without one the configuration decides
+  /\ Check(tid, l, "P.route.command", IF e.cmd.built THEN "" ELSE e.cmd.dflt.err,
+           /\ e.cmd.built
+           /\ e.cmd.yes = Lenient(e) /\ e.cmd.no = Strict(e)
+           /\ e.cmd.dflt = (IF e.cmd.cfgLenient THEN Lenient(e) ELSE Strict(e)))
   /\ Check(tid, l, "H.recipe.render", "", (e.hasRecipe /\ e.mut.kind = "") => e.line = Render(e.f, e.recipe))
   /\ Check(tid, l, "H.mutation.render", e.mut.kind, e.mut.kind # "" => e.line = MutLine(e.f, e.recipe, e.mut))
   /\ Check(tid, l, "P.mutation.error_class", e.mut.kind,
